@@ -104,7 +104,7 @@ def relabel_plan_st(draw, tier):
     for a in labels:
         if a not in uniq:
             uniq.append(a)
-    targets = draw(st.permutations(TARGETS[dst]))[:len(uniq)]
+    targets = draw(gen.perm_st(TARGETS[dst]))[:len(uniq)]
     p["mapping"] = [[a, t] for a, t in zip(uniq, targets)]
     p["dst_kind"] = dst
     return p
@@ -166,7 +166,7 @@ def permute_plan_st(draw, tier):
     perms = []
     for op in h.ops:
         if op[0] in ops.TRAIN_OPS:
-            perms.append(list(draw(st.permutations(list(range(len(op[1])))))))
+            perms.append(list(draw(gen.perm_st(list(range(len(op[1])))))))
         else:
             perms.append(None)
     return {"config": cfg, "ops": h.ops, "perms": perms, "family": h.family}
